@@ -98,6 +98,7 @@ class JsonTables:
         self.read_site = {}   # class -> (func, call node)
         self.ctor = {}        # class -> [params]
         self.relink = {}      # (class, attr) -> (shape, node)
+        self.relink_conditional = {}  # (class, attr) -> enclosing If/While/Try node
         self.project_export = {}
         self.project_read = {}
         for cn in r.model_classes:
@@ -210,3 +211,14 @@ class JsonTables:
                 elif isinstance(v, ast.IfExp) and "get_" in txt and "is not None" in ast.unparse(v.test):
                     shape = "id-relink"
                 self.relink[(cls, n.targets[0].attr)] = (shape, n)
+                pm = getattr(self, "_pm", None)
+                if pm is None:
+                    pm = self._pm = parent_map(rd.node)
+                g = pm.get(id(n))
+                cond = None
+                while g is not None and g is not rd.node:
+                    if isinstance(g, (ast.If, ast.While, ast.Try)):
+                        cond = g
+                    g = pm.get(id(g))
+                if cond is not None:
+                    self.relink_conditional[(cls, n.targets[0].attr)] = cond
